@@ -3,6 +3,8 @@ import math
 import random
 import warnings
 
+import numpy as np
+
 from hypothesis import strategies as st
 
 from ..common import CaseInfo, Violation
@@ -17,7 +19,7 @@ ID = "C19"
 RULE = ("Each case is one market with a generated tick size (powers of two 2^-10..2^3, decimal ticks 0.1/0.01/1e-5/0.3/7, "
         "arbitrary floats in [1e-5, 50]) and up to 40 limit orders per side whose prices are on the grid (k*tick in "
         "floats and in exact arithmetic), within a few ulps of a grid point, or off the grid by a generated fraction of a "
-        "tick (including prices below one tick and integer-typed prices), with price/tick up to 2^40. The accepted price (OrderLog and Order) is compared in exact rational "
+        "tick (including prices below one tick, integer-typed prices, and the side given as bool / numpy.bool_ / int; the tick size comes from the settings or is assigned to Market.tick_size afterwards), with price/tick up to 2^40. The accepted price (OrderLog and Order) is compared in exact rational "
         "arithmetic: exact multiple -> unchanged; power-of-two tick -> exactly floor/ceil(P/T)*T; otherwise on the grid "
         "up to 2^-50 relative, never more aggressive than P by more than P*2^-50, moved by < T + P*2^-50. Non-trivial = "
         "case containing an off-grid price; distinct by hash of (tick, prices).")
@@ -54,19 +56,28 @@ def cases(draw):
             p = round(k * tick, draw(st.integers(0, 6)))  # what a decimal reader would type
         if not (p > 0) or not math.isfinite(p):
             p = tick
-        prices.append([draw(st.booleans()), p])
-    return {"tick": tick, "prices": prices}
+        prices.append([draw(st.booleans()), p, draw(st.sampled_from(["bool", "bool", "bool", "numpy", "int"]))])
+    # the tick size either comes from the settings or is assigned to the (public) attribute afterwards
+    return {"tick": tick, "prices": prices, "assign_tick_after_setup": draw(st.sampled_from([None, None, 1.0, 0.5, 7.0]))}
 
 
 def check_case(case):
     tick = case["tick"]
     m = Market(market_id=0, prng=random.Random(0), simulator=None, name="m", logger=None)
-    m.setup({"tickSize": tick, "marketPrice": 100.0})
+    if case.get("assign_tick_after_setup") is not None:
+        m.setup({"tickSize": case["assign_tick_after_setup"], "marketPrice": 100.0})
+        m.tick_size = tick
+    else:
+        m.setup({"tickSize": tick, "marketPrice": 100.0})
     _call(m._update_time, next_fundamental_price=100.0)
     off = 0
     classes = set()
-    for is_buy, p in case["prices"]:
-        o = Order(agent_id=0, market_id=0, is_buy=is_buy, kind=LIMIT_ORDER, volume=1, price=p)
+    for item in case["prices"]:
+        is_buy, p = item[0], item[1]
+        side_type = item[2] if len(item) > 2 else "bool"
+        # the side as a plain bool, a numpy bool (what `rate > 0.0` yields for a numpy float) or an int
+        side = {"bool": bool(is_buy), "numpy": np.bool_(is_buy), "int": int(is_buy)}[side_type]
+        o = Order(agent_id=0, market_id=0, is_buy=side, kind=LIMIT_ORDER, volume=1, price=p)
         log = _call(m._add_order, o)
         msg = tick_violation(p, tick, log.price, is_buy)
         if msg:
@@ -78,6 +89,8 @@ def check_case(case):
             classes.add("below_one_tick")
         if isinstance(p, int):
             classes.add("int_price")
+        if side_type != "bool":
+            classes.add("side_" + side_type)
         if Fraction(p) % Fraction(tick) != 0:
             off += 1
             classes.add("offgrid_buy" if is_buy else "offgrid_sell")
@@ -88,7 +101,7 @@ def check_case(case):
     if is_power_of_two(tick):
         classes.add("exact_domain")
     return CaseInfo(nontrivial=off > 0, classes=classes, steps=len(case["prices"]),
-                    sample={"tick": tick, "prices": case["prices"][:8]})
+                    sample={"tick": tick, "prices": case["prices"][:8], "assign_tick_after_setup": case.get("assign_tick_after_setup")})
 
 
 PARTS = {"direct": {"check": check_case, "strategy": lambda tier: cases(), "budget": {"quick": 12000, "thorough": 150000}}}
